@@ -151,7 +151,7 @@ ConnectWith(blk, orcW, orcR) ==
         g1 == [gPurged EXCEPT !.fresh = @ \cup {tx \in TxU : orcW[tx] \in {"ok", "rej", "res"}}, !.seen = @ \cup blk.keys,
                               !.nodeHas = @ \cup blk.keys \cup {tx \in TxU : orcW[tx] \in {"ok", "mem", "res"}},
                               !.chain = {b \in @ : b.h < blk.h} \cup {blk}]
-        tw == Tags("WConnect", C01_WConnect(s1, Ew, xw.st, gPurged) \cup C02_Sends(s1, Ew, xw.st, gPurged) \cup C02_Status(s1, Ew, xw.st, g1)
+        tw == Tags("WConnect", C01_WConnect(s1, Ew, xw.st, gPurged) \cup C06_WConnect(s1, Ew, xw.st, gPurged) \cup C02_Sends(s1, Ew, xw.st, gPurged) \cup C02_Status(s1, Ew, xw.st, g1)
                                \cup C07_Frozen(s1, xw.st) \cup C07_Copies(xw.st))
               \cup AbortTag("WConnect", xw)
         xr == RConnectF(xw.st, blk, orcR)
